@@ -123,6 +123,9 @@ func c08GenLimits(rt *rapid.T) rlimit.RLimits {
 	l.AddressSpace = clamp(val("as", 1<<26, 1<<36), 1<<26, 1<<63-1)
 	l.OpenFile = clamp(val("nofile", 16, 20000), 16, 20000) // the hard limit of this machine cannot be raised (no CAP_SYS_RESOURCE)
 	l.DisableCore = rapid.Bool().Draw(rt, "nocore")
+	if rapid.IntRange(0, 7).Draw(rt, "rejected") == 0 {
+		l.OpenFile = 1 << 33 // above fs.nr_open: the kernel refuses this record (EPERM) whoever asks
+	}
 	return l
 }
 
@@ -176,6 +179,14 @@ func TestC08RLimits(t *testing.T) {
 				killTagged(tr.Tag)
 				ce.close()
 				return vh.Violf("C08:hung", "%+v", c)
+			}
+			if c.L.OpenFile > 20000 {
+				// a record the kernel refuses: the program must not run with that limit silently missing
+				if len(tr.Report.Limits) > 0 || tr.Result.Status == runner.StatusNormal {
+					return vh.Violf("C08:ran-without-limit", "%+v: RLIMIT_NOFILE=%d is refused by the kernel, yet the program ran (status %v, it reports NOFILE=%v)", c, c.L.OpenFile, tr.Result.Status, tr.Report.Limits[syscall.RLIMIT_NOFILE])
+				}
+				rec.Case([]any{cc, li}, true, "runner="+c.Runner, "rejected-record", fmt.Sprintf("rejected-record-last=%v", !c.L.DisableCore))
+				continue
 			}
 			if tr.Result.Status != runner.StatusNormal {
 				return vh.Violf("C08:launch", "%+v: status %v exit %d error %q for limits the kernel accepts", c, tr.Result.Status, tr.Result.ExitStatus, tr.Result.Error)
